@@ -52,9 +52,12 @@ View == <<svars, hvars>>
 Entry(due, id) == [due |-> due, id |-> id]
 Step(ev, popped) == [ev |-> ev, popped |-> popped]
 
+(* a script without a "start" operation begins after start() (flags set, thread parked at before_run);  *)
+(* one with "start" begins with a fresh AsyncRunner: no thread yet ("idle"), both flags clear           *)
+HasStart(sc) == \E i \in DOMAIN sc : sc[i].op = "start"
 InitRest ==
-  /\ rpc = "before_run" /\ cpc = "op" /\ ck = 1      \* start() already called: flags set, thread parked
-  /\ unpaused = TRUE /\ stopf = FALSE
+  /\ rpc = (IF HasStart(Script) THEN "idle" ELSE "before_run") /\ cpc = "op" /\ ck = 1
+  /\ unpaused = ~HasStart(Script) /\ stopf = FALSE
   /\ clk = 0 /\ itime = 0 /\ inited = FALSE /\ final = FALSE /\ q = <<>>
   /\ plan = 0 /\ qdue = 0 /\ qpos = 0 /\ cyc = <<>>
   /\ executed = <<>> /\ reported = <<>> /\ consumed = <<>> /\ queued = {}
@@ -214,6 +217,15 @@ CAdvance ==
   /\ UNCHANGED <<Script, ExecuteAll, rpc, unpaused, stopf, itime, inited, final, q, plan, qdue, qpos, cyc,
                  executed, reported, consumed, queued, nbefore, nafter, ncycles, pausedAt, cyclesAfterPause, raced>>
 
+CStart ==        \* start(): RuntimeError (and nothing else) once stopped or while the thread is alive
+  /\ cpc = "op" /\ Op.op = "start"
+  /\ IF stopf \/ rpc # "idle"
+       THEN UNCHANGED <<rpc, unpaused, pausedAt, cyclesAfterPause>>
+       ELSE rpc' = "before_run" /\ unpaused' = TRUE /\ pausedAt' = -1 /\ cyclesAfterPause' = 0
+  /\ NextOp /\ lastev' = "start"
+  /\ UNCHANGED <<Script, ExecuteAll, stopf, clk, itime, inited, final, q, plan, qdue, qpos, cyc,
+                 executed, reported, consumed, queued, nbefore, nafter, ncycles, raced>>
+
 CStopSetStop ==
   /\ cpc = "op" /\ Op.op = "stop"
   /\ stopf' = TRUE /\ cpc' = "stop_unpause" /\ lastev' = "stop_set_stop"
@@ -223,7 +235,7 @@ CStopSetStop ==
 CStopUnpause ==  \* self._unpaused.set(); then wait(): join only if the thread is alive
   /\ cpc = "stop_unpause"
   /\ unpaused' = TRUE /\ pausedAt' = -1 /\ lastev' = "stop_set_unpaused"
-  /\ IF rpc = "done" THEN NextOp ELSE cpc' = "join" /\ ck' = ck
+  /\ IF rpc \in {"done", "idle"} THEN NextOp ELSE cpc' = "join" /\ ck' = ck
   /\ UNCHANGED <<Script, ExecuteAll, rpc, stopf, clk, itime, inited, final, q, plan, qdue, qpos, cyc,
                  executed, reported, consumed, queued, nbefore, nafter, ncycles, cyclesAfterPause, raced>>
 
@@ -235,10 +247,10 @@ CJoin ==          \* Thread.join() returns when the runner thread has ended
 
 ClientStep ==
   CQueueStart \/ CQueueBisect \/ CQueueInsert \/ CPause \/ CUnpause \/ CAdvance
-  \/ CStopSetStop \/ CStopUnpause \/ CJoin
+  \/ CStopSetStop \/ CStopUnpause \/ CJoin \/ CStart
 
 -----------------------------------------------------------------------------
-Terminated == cpc = "done" /\ (rpc = "done" \/ (rpc = "wait" /\ ~unpaused))
+Terminated == cpc = "done" /\ (rpc \in {"done", "idle"} \/ (rpc = "wait" /\ ~unpaused))
 RStep == RunnerStep /\ Log("r")
 CStep == ClientStep /\ Log("c")
 Next ==
@@ -260,10 +272,10 @@ Snap ==
   [script |-> Script, xall |-> ExecuteAll, rpc |-> rpc, cpc |-> cpc, unpaused |-> unpaused,
    stopf |-> stopf, final |-> final, q |-> q, executed |-> executed, reported |-> reported,
    consumed |-> consumed, queued |-> queued, nbefore |-> nbefore, nafter |-> nafter,
-   cyclesAfterPause |-> cyclesAfterPause, raced |-> raced]
+   cyclesAfterPause |-> cyclesAfterPause, raced |-> raced, ck |-> ck]
 
 Flat(ss) == FlattenSeq(ss)
-Quiet(s) == s.rpc \in {"sleep", "wait", "test_stop", "before_execute", "stop_set", "after_run", "done"}
+Quiet(s) == s.rpc \in {"idle", "sleep", "wait", "test_stop", "before_execute", "stop_set", "after_run", "done"}
 
 (* every executed macro step is handed exactly once, in order, to after_execute *)
 C_reported_prefix(s) == IsPrefix(Flat(s.reported), s.executed)
@@ -283,11 +295,14 @@ C_queue_sorted(s) == \A i, j \in DOMAIN s.q : i < j => s.q[i].due <= s.q[j].due
 (* lifecycle *)
 C_hooks_once(s) == /\ s.nbefore <= 1 /\ s.nafter <= 1
                    /\ (s.rpc = "done" => (s.nbefore = 1 /\ s.nafter = 1))
-                   /\ (s.rpc # "before_run" => s.nbefore = 1)
+                   /\ (s.rpc \notin {"before_run", "idle"} => s.nbefore = 1)
                    /\ (s.rpc \notin {"done"} => s.nafter = 0)
 C_pause_holds(s) == s.cyclesAfterPause <= 1
 C_nothing_after_stop(s) ==
-  (s.cpc = "done" /\ Len(s.script) > 0 /\ s.script[Len(s.script)].op = "stop") => s.rpc = "done"
+  (s.cpc = "done" /\ Len(s.script) > 0 /\ s.script[Len(s.script)].op = "stop") => s.rpc \in {"done", "idle"}
+(* once a stop() call has returned there is no live runner thread, whatever is called afterwards *)
+C_stopped_for_good(s) ==
+  (\E i \in 1..(s.ck - 1) : i \in DOMAIN s.script /\ s.script[i].op = "stop") => s.rpc \in {"done", "idle"}
 
 SafetyClauses(s) ==
   (IF C_reported_prefix(s) THEN {} ELSE {"reported_prefix"})
@@ -296,6 +311,7 @@ SafetyClauses(s) ==
   \cup (IF C_hooks_once(s) THEN {} ELSE {"hooks_once"})
   \cup (IF C_pause_holds(s) THEN {} ELSE {"pause_holds"})
   \cup (IF C_nothing_after_stop(s) THEN {} ELSE {"nothing_after_stop"})
+  \cup (IF C_stopped_for_good(s) THEN {} ELSE {"stopped_for_good"})
 
 (* the part of C20 that the queue races of known finding D11 break *)
 EventClauses(s) ==
@@ -310,5 +326,5 @@ EventSafetyUnlessRaced == raced \/ EventSafety
 
 (* liveness, under weak fairness of both threads *)
 StopReturns == (\E i \in DOMAIN Script : Script[i].op = "stop") => <>(cpc = "done")
-FinalStops == [](final => <>(rpc = "done" \/ (rpc = "wait" /\ ~unpaused)))
+FinalStops == [](final => <>(rpc \in {"done", "idle"} \/ (rpc = "wait" /\ ~unpaused)))
 =============================================================================
